@@ -622,6 +622,7 @@ def run(ctx):
     overlap_window(ctx, "E7")
     _e8(ctx)
     _e10(ctx)
+    _e12(ctx)
     # the generated multi-word accessors write word by word in ascending address order: the hardware must apply the write with the
     # word at the last address (strobes of CSRStorage / writable CSRStatus follow that word) -- shared with C12.R2
     from .c12 import last_word_strobes, atomic_backstore
@@ -838,3 +839,61 @@ def _e10(ctx):
     for info in fxa.fsms.values():
         shared_bus_idle_zero(ctx, "E10", fxa, "axi_lite_to_simple", info, ["port_adr", "port_re", "port_we", "port_dat_w"],
                              tag="AXILite2CSR: ", discharged={x.replace("self.csr.", "port_") for x in discharged})
+
+
+def _e12(ctx):
+    """Memory regions and constants as published in mem.h / soc.h: the header generators interpreted (lxs/pyconst.py) on model
+    regions / constants and the text parsed back -- <NAME>_BASE / <NAME>_SIZE and the MEM_REGIONS rows carry each region's own origin
+    and size, every constant is defined with its own value and its accessor returns that value."""
+    import re as _re
+    from .. import pyconst
+    from ..pyconst import NS, Native
+    ex = ctx.mod(EXP)
+    funcs = {f.name: f for f in ex.tree.body if isinstance(f, ast.FunctionDef)}
+    ctx.rule("E12", "published memory regions and constants: mem.h defines <NAME>_BASE = origin and <NAME>_SIZE = size for every region "
+                    "(and lists the same pairs in MEM_REGIONS), soc.h defines every constant with its own value and an accessor returning "
+                    "it -- the generators interpreted on model inputs, the text parsed back", min_sites=4)
+    banner = {"generated_banner": Native(lambda c: "")}
+    bad_base = bad_rows = None
+    for regs in ({"rom": (0x0, 0x8000), "main_ram": (0x40000000, 0x1234000), "csr": (0xf0000000, 0x10000)},
+                 {"sram": (0x10000000, 0x2000)}, {"a": (0x100, 0x40), "bb": (0x1000, 0x100), "ccc": (0x0, 0x10), "d": (0x80000000, 0x80000000)}):
+        model = {k: NS(origin=o, size=z) for k, (o, z) in regs.items()}
+        try:
+            kind, txt = pyconst.call(funcs["get_mem_header"], {"regions": model}, consts=banner, funcs=funcs)
+        except Exception as ex_:     # noqa
+            ctx.need(False, f"get_mem_header cannot be interpreted ({type(ex_).__name__}: {ex_})")
+        ctx.need(kind == "return" and isinstance(txt, str), "get_mem_header does not return a constant text on model regions")
+        defs = dict(_re.findall(r"#define (\w+) (0x[0-9a-fA-F]+)L?\b", txt))
+        for k, (o, z) in regs.items():
+            got = (defs.get(k.upper() + "_BASE"), defs.get(k.upper() + "_SIZE"))
+            if (got[0] is None or got[1] is None or int(got[0], 16) != o or int(got[1], 16) != z) and bad_base is None:
+                bad_base = f"region {k} (origin {o:#x}, size {z:#x}) is published as BASE {got[0]}, SIZE {got[1]}"
+        m_ = _re.search(r'#define MEM_REGIONS "(.*)"', txt)
+        rows = [r_.split() for r_ in m_.group(1).split("\\n")] if m_ else []
+        want_rows = [[k.upper(), f"{o:#x}", f"{z:#x}"] for k, (o, z) in regs.items()]
+        got_rows = [[r_[0], hex(int(r_[1], 16)), hex(int(r_[2], 16))] for r_ in rows if len(r_) == 3]
+        if got_rows != want_rows and bad_rows is None:
+            bad_rows = f"MEM_REGIONS lists {got_rows}, the regions are {want_rows}"
+    fn = funcs["get_mem_header"]
+    ctx.ob("E12", EXP, "get_mem_header", "<NAME>_BASE / <NAME>_SIZE = the region's own origin / size", bad_base is None, bad_base or "", fn)
+    ctx.ob("E12", EXP, "get_mem_header", "MEM_REGIONS lists every region with its origin and size, in order", bad_rows is None, bad_rows or "", fn)
+    consts = {"CONFIG_CLOCK_FREQUENCY": 75000000, "CONFIG_CPU_NAME": "vexriscv", "CONFIG_CSR_DATA_WIDTH": 32, "CONFIG_FLAG": None, "UART_INTERRUPT": 0}
+    bad_def = bad_acc = None
+    for waf in (True, False):
+        try:
+            kind, txt = pyconst.call(funcs["get_soc_header"], {"constants": dict(consts), "with_access_functions": waf}, consts=banner, funcs=funcs)
+        except Exception as ex_:     # noqa
+            ctx.need(False, f"get_soc_header cannot be interpreted ({type(ex_).__name__}: {ex_})")
+        ctx.need(kind == "return" and isinstance(txt, str), "get_soc_header does not return a constant text on model constants")
+        for k, v in consts.items():
+            m_ = _re.search(r"^#define " + k + r"(?: (.*))?$", txt, _re.M)
+            want = None if v is None else (f'"{v}"' if isinstance(v, str) else str(v))
+            if (m_ is None or (m_.group(1) or None) != want) and bad_def is None:
+                bad_def = f"constant {k} = {v!r} is defined as `{m_.group(0) if m_ else None}`"
+            if waf and v is not None:
+                a_ = _re.search(k.lower() + r"_read\(void\) \{\s*return (.*?);", txt)
+                if (a_ is None or a_.group(1) != want) and bad_acc is None:
+                    bad_acc = f"accessor {k.lower()}_read() returns `{a_.group(1) if a_ else None}`, the constant is {want}"
+    fn = funcs["get_soc_header"]
+    ctx.ob("E12", EXP, "get_soc_header", "every constant defined with its own value", bad_def is None, bad_def or "", fn)
+    ctx.ob("E12", EXP, "get_soc_header", "every accessor returns the constant it is named after", bad_acc is None, bad_acc or "", fn)
